@@ -243,7 +243,28 @@ def rule_r5(ctx):
                   how="`if name not in used: used.add(name); return False`")
 
 
+def rule_r5b(ctx):
+    """The name-fixing pass visits the main graph and every function: the call that fixes a graph-like is never a
+    short-circuited operand (shared with C14-R3)."""
+    from . import c14
+
+    ef = ctx._shared.get("effects")
+    if ef is None:
+        ef = ctx._shared["effects"] = Effects(ctx.repo, ctx.typer, tier4=(ctx.tier == "thorough"))
+    ef.compute()
+    p = ctx.repo.cls("onnx_ir.passes.common.naming:NameFixPass")
+    call = p.methods.get("call")
+    ctx.require(call is not None, "NameFixPass.call not found")
+    skips = c14.shortcircuit_skips(ef, call)
+    ctx.check("R5", "NameFixPass.call fixes the main graph and every function (no fixing call in a short-circuited operand)", not skips, call,
+              skips[0][0] if skips else call.node,
+              f"`{norm(skips[0][1])[:80] if skips else ''}` is a later operand of `or`/`and`: after the first graph-like that needed a fix the remaining "
+              "functions are skipped, so unnamed / duplicate names survive the pass",
+              how="effect summaries of calls in later operands of and/or", construct="name fixing skipped by short-circuit")
+
+
 def run(ctx):
+    rule_r5b(ctx)
     rule_r1(ctx)
     rule_r2(ctx)
     rule_r3(ctx)
